@@ -545,6 +545,8 @@ func (e *kengine) refine(s *kstate, cond ssa.Value, pol bool) {
 			}
 		}
 	case *ssa.Extract:
+		// `_, ok := holder.Interface().(T)` / a case of a type switch on it: the held value has T's kind (tol_U2.go)
+		e.refineTypeAssert(s, c, pol)
 		// `item, ok := helper(…); if ok`: on the edge where the helper's last (bool) result has the value pol, the other
 		// results have the facts of the helper's returns that return that constant
 		e.refineCorrelated(s, c, func(v ssa.Value) bool {
@@ -1021,7 +1023,6 @@ func (ps *predSummaries) evalFor(f *ssa.Function, k int) (canTrue, canFalse, ok 
 
 // reviewed sites the engine cannot prove (function|method|receiver key prefix) with one line of reason
 var assumedSafe = map[string]string{
-	"(*Value).Contains|MapIndex":       "the map's key type was compared for equality with other.val's type and the type switch restricts other to int/string (non-pointer), so the resolved value equals other.val",
 	"(*variableResolver).resolve|Call": "argument count, variadic shape, NumOut and parameter validity are checked by the call protocol above (R-C08-CALL); reflect's per-argument assignability is established by the type comparison loop",
 }
 
@@ -1110,7 +1111,7 @@ func ruleReflectTypestate(p *Prog, a *Anchors, r *Report, rule string, only func
 					}
 					extra = ", can be interfaced"
 				case "MapIndex":
-					if !st.assign[e.key(recv)+"|"+e.key(c.Common().Args[1])] && !keyFromMapKeys(p, c.Common().Args[1], recv) {
+					if !e.keyAssignable(st, recv, c.Common().Args[1]) && !keyFromMapKeys(p, c.Common().Args[1], recv) {
 						r.Bad(key, pos, "MapIndex with a key (%s) whose type was not shown assignable to the map's key type: reflect panics for a wrong-typed key", p.VN(c.Common().Args[1]))
 						continue
 					}
@@ -1167,33 +1168,13 @@ func kEngineFor(p *Prog, f *ssa.Function, preds *predSummaries, visiting map[*ss
 				if cst == nil {
 					continue // unreachable call site
 				}
-				args := callArgs(edge.Site.Common())
-				st := newKState()
-				for i, pa := range f.Params {
-					if i < len(args) && isReflectValue(pa.Type()) {
-						st.vals[e.key(pa)] = ce.get(cst, args[i])
-					}
-					// a *Value handed on (receiver of an extracted method): what the caller established about its
-					// resolved reflect value (the kind switch it stands in) holds for the callee's view of it
-					if i < len(args) && typeName(pa.Type()) == "*Value" {
-						if rf, has := cst.vals[resolvedPrefix+ce.key(args[i])+")"]; has {
-							st.vals[resolvedPrefix+e.key(pa)+")"] = rf
-						}
-					}
-				}
+				// the caller's facts about the arguments (reflect.Value arguments, val field / resolved value of *Value
+				// arguments, key assignability between them) over the callee's parameters (tol_U2.go)
+				st := liftArgumentFacts(ce, cst, e, callArgs(edge.Site.Common()))
 				if init == nil {
 					init = st
 				} else {
-					// join parameter facts (keys are the callee's parameter keys in both)
-					for k, v := range st.vals {
-						if o, has := init.vals[k]; has {
-							j := kfact{kinds: o.kinds | v.kinds, ci: o.ci, addr: o.addr && v.addr}
-							if v.ci < j.ci {
-								j.ci = v.ci
-							}
-							init.vals[k] = j
-						}
-					}
+					init = joinInitialK(init, st)
 				}
 			}
 		}
